@@ -15,6 +15,7 @@ import (
 	"fmt"
 	"math/big"
 	"os"
+	"regexp"
 	"runtime"
 	"strings"
 	"sync"
@@ -60,6 +61,10 @@ func c09Spec() world.Spec {
 		{ID: "req-done-post", AppID: "app-0", RelayState: "rs-done", ACS: "https://sp0.example/acs/post", Binding: world.BindPost, AuthRequestID: "_authn2", UserID: "uid-0", Done: true},
 		{ID: "req-done-redirect", AppID: "app-0", RelayState: "rs-done2", ACS: "https://sp0.example/acs/redirect", Binding: world.BindRedirect, AuthRequestID: "_authn3", UserID: "uid-1", Done: true},
 		{ID: "req-done-odd", AppID: "app-5", RelayState: "", ACS: "", Binding: world.BindArtifact, AuthRequestID: "", UserID: "uid-1", Done: true},
+		// consumer URLs that net/url refuses, persisted for both bindings and both states
+		{ID: "req-done-badurl-redirect", AppID: "app-0", RelayState: "rs", ACS: xt.EvilURL, Binding: world.BindRedirect, AuthRequestID: "_authn5", UserID: "uid-0", Done: true},
+		{ID: "req-done-badurl-post", AppID: "app-0", RelayState: "rs", ACS: "https://sp.example/100%/acs", Binding: world.BindPost, AuthRequestID: "_authn6", UserID: "uid-0", Done: true},
+		{ID: "req-pending-badurl-redirect", AppID: "app-0", RelayState: "rs", ACS: "http://a b/%zz", Binding: world.BindRedirect, AuthRequestID: "_authn7"},
 	}
 	return s
 }
@@ -77,9 +82,50 @@ func c09Do(w *world.World, r obs.HTTPReq) *ev.Violation {
 		}
 		return nil
 	case <-time.After(30 * time.Second):
-		fmt.Println("HARNESS-FAILURE property=C09 request did not return within 30s (inconclusive)")
+		// "processing terminates": the input is a few kilobytes and a request takes about a millisecond. If the handler is still
+		// on the CPU inside zitadel/saml, in the same function, in two stack dumps 10 s apart (so 40 s in all), it is not
+		// waiting for anything and will not finish; anything else (blocked, moved on) is inconclusive.
+		f1, running1 := c09Spinning()
+		time.Sleep(10 * time.Second)
+		f2, running2 := c09Spinning()
+		select {
+		case <-done:
+			fmt.Println("HARNESS-FAILURE property=C09 request needed more than 30s (inconclusive)")
+			return nil
+		default:
+		}
+		if running1 && running2 && f1 != "" && f1 == f2 {
+			return ev.V("C09/does-not-terminate:"+f1, "the handler has been running for 40 s on a request of %d bytes and is still executing %s (on the CPU, not waiting)", len(r.RawQuery)+len(r.Body), f1)
+		}
+		fmt.Println("HARNESS-FAILURE property=C09 request did not return within 40s (inconclusive)")
 		return nil
 	}
+}
+
+var reGoState = regexp.MustCompile(`(?m)^goroutine \d+ \[([^\],]+)`)
+
+// c09Spinning finds the goroutine that serves the request (obs.DoOpt on its stack) and reports the innermost zitadel/saml
+// function it is in and whether it is on the CPU (running / runnable) rather than parked.
+func c09Spinning() (fn string, running bool) {
+	buf := make([]byte, 4<<20)
+	buf = buf[:runtime.Stack(buf, true)]
+	for _, g := range strings.Split(string(buf), "\n\n") {
+		if !strings.Contains(g, "harness/obs.DoOpt") || !strings.Contains(g, "github.com/zitadel/saml/pkg/") {
+			continue
+		}
+		m := reGoState.FindStringSubmatch(g)
+		if m == nil {
+			continue
+		}
+		for _, line := range strings.Split(g, "\n") {
+			if strings.HasPrefix(line, "github.com/zitadel/saml/pkg/") {
+				fn = strings.TrimPrefix(line[:strings.LastIndex(line, "(")], "github.com/zitadel/saml/pkg/")
+				break
+			}
+		}
+		return fn, m[1] == "running" || m[1] == "runnable"
+	}
+	return "", false
 }
 
 // ---- message families ----
@@ -515,6 +561,14 @@ func c09Uses(cfg world.IdPConfig) []obs.HTTPReq {
 	a2.ProtocolBinding = world.BindRedirect
 	req, _, _ = spsim.Encode(route(cfg, "sso"), wr(a2.Tree(plainStyle)), spsim.Transport{Binding: "redirect", Encoding: A, RelayState: A}, nil)
 	out = append(out, req)
+	// refused after the consumer service has been selected: the failure reply travels to the registered Location
+	for _, pb := range []string{world.BindRedirect, world.BindPost, A} {
+		a3 := a
+		a3.ProtocolBinding = pb
+		a3.Destination = "https://elsewhere.example/not-this-idp"
+		req, _, _ = spsim.Encode(route(cfg, "sso"), wr(a3.Tree(plainStyle)), spsim.Transport{Binding: "post", Encoding: A, RelayState: "rs"}, nil)
+		out = append(out, req)
+	}
 	l := spsim.NewLogoutReq("_use2", issuer, "usermark0")
 	req, _, _ = spsim.Encode(route(cfg, "slo"), wr(l.Tree(plainStyle)), spsim.Transport{Binding: "post", Encoding: A, RelayState: "rs"}, nil)
 	out = append(out, req)
@@ -843,7 +897,7 @@ func genC09Case(t *rapid.T) C09Case {
 		c.Note = "param-soup"
 	case "other-endpoint":
 		paths := []string{route(cfg, "metadata"), route(cfg, "certificate"), "/healthz", "/ready", route(cfg, "callback"), "/", "/unknown", route(cfg, "sso") + "/", "//" + strings.TrimPrefix(route(cfg, "sso"), "/")}
-		ids := []string{"req-pending", "req-done-post", "req-done-redirect", "req-done-odd", "nope", "", "%00", strings.Repeat("x", 3000)}
+		ids := []string{"req-pending", "req-done-post", "req-done-redirect", "req-done-odd", "req-done-badurl-redirect", "req-done-badurl-post", "req-pending-badurl-redirect", "nope", "", "%00", strings.Repeat("x", 3000)}
 		id := rapid.SampledFrom(ids).Draw(t, "id")
 		c.Req = obs.HTTPReq{
 			Method:   rapid.SampledFrom([]string{"GET", "POST", "PUT", "HEAD"}).Draw(t, "method"),
@@ -862,6 +916,12 @@ func genC09Case(t *rapid.T) C09Case {
 			c.Req.Body = "id=" + id
 		}
 		c.Note = "other-endpoint"
+	}
+	if c.Req.Body != "" && rapid.IntRange(0, 3).Draw(t, "chunked") == 0 {
+		c.Req.Chunked = true
+	}
+	if rapid.IntRange(0, 5).Draw(t, "brokenpipe") == 0 {
+		c.Req.FailWriteAfter = rapid.SampledFrom([]int{1, 17, 200, 4096}).Draw(t, "brokenafter")
 	}
 	return c
 }
